@@ -49,7 +49,7 @@ def run_layers(ctx, files1, files2, p1pattern):
         for lid, kind, path in layers:
             defined[lid] = bool(ctx.bool('p0_in_' + lid))
         p1_layers = {'none': [], 'default': ['L0'],
-                     'main+first': ['L1', layers[2][0]],
+                     'main+first': ['L1', layers[min(2, len(layers) - 1)][0]],
                      'last': [layers[-1][0]]}[p1pattern]
         # -- write the files (creation order: reverse of sort order) ---------
         contents = {}
@@ -113,15 +113,24 @@ def run_layers(ctx, files1, files2, p1pattern):
                'fmt': fmt, 'p0_defined_in': [k for k in defined
                                               if defined[k]]}
         ctx.observe('row', row)
-        for name, eff in (('p0', e0), ('p1', e1), ('q', 'q'),
-                          ('nowhere', None)):
-            want = _rv(ctx, eff) if eff else z3.BoolVal(False)
-            got = common.decision(ctx, enf, name, creds)
-            ctx.observe(name, got)
-            common.require_decision(ctx, got, want, 'layers:decision',
-                                    key='layers:%s' % name,
-                                    detail=dict(row, name=name,
-                                                governing_layer=eff))
+        # the same precedence after the service's reload hook (nothing on
+        # disk has changed): load_rules(force_reload=True)
+        for phase in ('first-load', 'after-forced-reload'):
+            if phase == 'after-forced-reload':
+                if not bool(ctx.bool('forced_reload_too')):
+                    break
+                enf.load_rules(force_reload=True)
+                ctx.cover('layers:forced-reload')
+            for name, eff in (('p0', e0), ('p1', e1), ('q', 'q'),
+                              ('nowhere', None)):
+                want = _rv(ctx, eff) if eff else z3.BoolVal(False)
+                got = common.decision(ctx, enf, name, creds)
+                ctx.observe(phase + ':' + name, got)
+                common.require_decision(ctx, got, want, 'layers:decision',
+                                        key='layers:%s:%s' % (phase, name),
+                                        detail=dict(row, name=name,
+                                                    phase=phase,
+                                                    governing_layer=eff))
         ctx.cover('layers:governed-by-%s' % (
             'default' if e0 == 'L0' else 'main' if e0 == 'L1' else
             'dir' if e0 else 'nothing'))
@@ -136,7 +145,8 @@ def run_layers(ctx, files1, files2, p1pattern):
 def cubes_layers(tier, seed):
     out = []
     if tier == 'quick':
-        combos = [(['base.yaml', 'base-overrides.yaml'], ['policy.yaml',
+        combos = [([], []), ([], ['9.yaml']),
+                  (['base.yaml', 'base-overrides.yaml'], ['policy.yaml',
                                                             'policy.l.yaml']),
                   (['10.yaml', '9.yaml'], ['B.yaml']),
                   (['a.yaml', 'B.yaml'], ['9.yaml', '10.yaml']),
@@ -148,7 +158,8 @@ def cubes_layers(tier, seed):
         for a in itertools.combinations(FILE_MENU, 2):
             for b in itertools.combinations(FILE_MENU, 2):
                 combos.append((list(a), list(b)))
-        combos += [(FILE_MENU[:3], FILE_MENU[1:]), (FILE_MENU, ['9.yaml']),
+        combos += [([], []), ([], ['9.yaml']), (['a.yaml'], []),
+                   (FILE_MENU[:3], FILE_MENU[1:]), (FILE_MENU, ['9.yaml']),
                    (['base.yaml', 'base-overrides.yaml'],
                     ['policy.yaml', 'policy.l.yaml']),
                    (['x.json', 'x.yaml', 'x-1.yaml'], ['a.b.yaml', 'a.yaml'])]
@@ -262,6 +273,7 @@ HARNESSES = {
 REQUIRED_COVER = ['layers:governed-by-default', 'layers:governed-by-main',
                   'layers:governed-by-dir', 'layers:governed-by-nothing',
                   'layers:main-missing', 'layers:dir-missing',
+                  'layers:forced-reload',
                   'choice:policy.json', 'choice:policy.yaml',
                   'choice:other.yaml', 'choice:ctor.yaml']
 
